@@ -209,6 +209,48 @@ fn run_sdpanswer(run: &mut Run, live: &LivePc, rng: &mut Rng, nt: bool) {
     });
 }
 
+/// SDES (`TransportMode::Srtp`): our offer applied locally, then an answer whose `a=crypto` line is attacker-chosen; the connection
+/// is left to bring its transport up (`setup_sdes` runs in the connection's own task — a panic there is seen by the process-wide counter)
+const SDES_KEYS: [&str; 12] = ["inline:MTIzNDU2Nzg5MDEyMzQ1Njc4OTAxMjM0NTY3ODkw", "inline:MTIzNDU2Nzg5MA==", "inline:", "inline:MTIzNDU2Nzg5MDEyMzQ1Njc4OTAxMjM0NTY3OA==",
+    "inline:MTIzNDU2Nzg5MDEyMzQ1Njc4OTAxMjM0NTY3ODkw|2^20|1:4", "inline:|", "inlin", "inline:MQ==", "inline:!!!!", "inline:MTIzNDU2Nzg5MDEyMzQ1Njc4OTAxMjM0NTY3ODkwMTIzNDU2Nzg5MDEyMzQ1Njc4OTAxMjM0NTY3ODkw",
+    "inline:MTIzNDU2Nzg5MDEyMzQ1Ng==", "inline:é"];
+const SDES_SUITES: [&str; 5] = ["AES_CM_128_HMAC_SHA1_80", "AES_CM_128_HMAC_SHA1_32", "AEAD_AES_128_GCM", "AEAD_AES_256_GCM", "X"];
+fn run_sdpsdes(run: &mut Run, live: &LivePc, key: usize, suite: usize, wait_ms: u64, nt: bool) {
+    let l = std::panic::AssertUnwindSafe(live);
+    UP.with(|u| u.set(false));
+    exec(run, "sdpsdes", &format!("{key} {suite} {wait_ms}"), "PeerConnection::setup_sdes", nt, None, move || {
+        l.rt.block_on(async {
+            let peer = tokio::net::UdpSocket::bind("127.0.0.1:0").await.expect("bind");
+            let port = peer.local_addr().unwrap().port();
+            let mut c = cfg(1); c.bind_ip = Some("127.0.0.1".into()); c.disable_ipv6 = true;
+            let pc = PeerConnection::new(c);
+            let _ = pc.add_transceiver(rustrtc::MediaKind::Audio, rustrtc::TransceiverDirection::SendRecv);
+            let offer = match pc.create_offer().await { Ok(o) => o, Err(_) => { pc.close(); return; } };
+            let text = offer.to_sdp_string();
+            let _ = pc.set_local_description(offer);
+            let mut ans = String::new();
+            for line in text.lines() {
+                if line.starts_with("a=crypto:") { ans.push_str(&format!("a=crypto:1 {} {}\r\n", SDES_SUITES[suite % SDES_SUITES.len()], SDES_KEYS[key % SDES_KEYS.len()])); }
+                else if line.starts_with("m=audio ") { let mut p: Vec<&str> = line.split(' ').collect(); let ps = port.to_string(); p[1] = &ps; ans.push_str(&p.join(" ")); ans.push_str("\r\n"); }
+                else if line.starts_with("c=") { ans.push_str("c=IN IP4 127.0.0.1\r\n"); }
+                else if line.starts_with("a=candidate") {}
+                else { ans.push_str(line); ans.push_str("\r\n"); }
+            }
+            if let Ok(d) = SessionDescription::parse(SdpType::Answer, &ans) {
+                if tokio::time::timeout(std::time::Duration::from_secs(5), pc.set_remote_description(d)).await.is_err() { panic!("set_remote_description(answer) did not return within 5 s"); }
+                let up = pc.wait_for_rtp_transport_ready(std::time::Duration::from_millis(wait_ms)).await.is_ok();
+                UP.with(|u| u.set(up));
+                tokio::time::sleep(std::time::Duration::from_millis(30)).await;
+            }
+            pc.close();
+            tokio::time::sleep(std::time::Duration::from_millis(5)).await;
+        });
+        "noncompared".into()
+    });
+    run.count(&format!("sdpsdes:transport_up:{}", UP.with(|u| u.get())));
+}
+thread_local! { static UP: std::cell::Cell<bool> = const { std::cell::Cell::new(false) }; }
+
 fn run_sdpset(run: &mut Run, live: &LivePc, mode: u8, s: &str, nt: bool) {
     let t = s.to_string();
     let l = std::panic::AssertUnwindSafe(live);
@@ -260,6 +302,7 @@ pub fn special(run: &mut Run, rng: &mut Rng, thorough: bool) {
         run_sdpset(run, &live, rng.below(3) as u8, &m, true);
     }
     for _ in 0..(if thorough { 1_500 } else { 60 }) { run_sdpanswer(run, &live, rng, true); }
+    for key in 0..SDES_KEYS.len() { for suite in 0..(if thorough { SDES_SUITES.len() } else { 3 }) { run_sdpsdes(run, &live, key, suite, 400, true); } }
     for _ in 0..(if thorough { 20_000 } else { 800 }) {
         let n = rng.below(200) as usize;
         let s = String::from_utf8_lossy(&rng.bytes(n)).to_string();
@@ -270,6 +313,7 @@ pub fn special(run: &mut Run, rng: &mut Rng, thorough: bool) {
 }
 
 pub fn replay_special(run: &mut Run, stream: &str, a: &[&str]) -> bool {
+    if stream == "sdpsdes" && a.len() == 3 { let p = |s: &str| s.parse::<u64>().unwrap_or(0); let live = LivePc::new(); run_sdpsdes(run, &live, p(a[0]) as usize, p(a[1]) as usize, p(a[2]), true); return true; }
     match (stream, a.len()) {
         ("cand", 1) => { run_cand(run, &String::from_utf8_lossy(&unhex(a[0])), true); true }
         ("sdpmid", 1) => { let l = LivePc::new(); run_sdpmid(run, &l, a[0], true); true }
